@@ -78,6 +78,12 @@ class LogExec(Exec):
         del p
         gc.collect()
         me = s.me()
+
+        def others():
+            return [t for t in s.threads if t is not me and t.state != sched.FINISHED and not t.name.startswith('QueueFeederThread')]
+        # the finalizer ends the log stream but (since 783c440) does not wait for the reader thread, which ends by itself on
+        # the end marker: give it until nothing else can run
+        s.block(lambda: not others(), 400.0, on='settle')
         # (the idle daemon feeder thread of the parent's end of the queue belongs to the boundary model: in CPython it
         # is told to stop when the queue object is collected)
         alive = sorted(sched.base_name(t.name) for t in s.threads if t is not me and t.state != sched.FINISHED
